@@ -6,19 +6,39 @@ package main
 // normal build): when the environment variable SCION_TIME_VERIF_WIRING names a
 // TOML configuration file, the program loads it with the service's own
 // loadConfig, calls the service's own localAddress and createClocks as runServer
-// and runClient do, prints for every element of the two clock lists its role
-// (ref / peer), its position, its kind and what it was configured from, and
-// exits without starting anything. The SCION daemon address is cleared first,
-// so that createClocks neither connects to a daemon nor starts a pather: clock
-// objects are only constructed, no socket or device is opened.
+// and runClient do, prints what createClocks built and exits without starting
+// anything:
+//
+//	verif-wiring <role> <pos> <kind> <id>
+//	    one line per element of the two clock lists: role ref / peer, position
+//	    in its list, kind (ntp-ip, ntp-scion or the Go type) and what it was
+//	    configured from (remote address, device, unit)
+//	verif-wiring-client <role> <pos> <idx> key=value ...
+//	    one line per NTP client of an ntp-ip clock (one client) or an ntp-scion
+//	    clock (one client per path slot): interleaved, dscp, auth (IP client:
+//	    NTS enabled; SCION client: SPAO enabled), nts (SCION client: NTS
+//	    enabled; IP client: same as auth), ntske_port, ntske_server (TLS server
+//	    name), ntske_quic, ntske_log (fetcher has a logger), drkey (a DRKey
+//	    fetcher is set) and its pointer drkeyp, pather (SCION clock has a
+//	    pather) and its pointer patherp, filter (dynamic type) and filterp (its
+//	    pointer: sharing between clients is visible), hist (histogram set), log
+//	verif-wiring-done <number of refs> <number of peers>
+//
+// A configured SCION daemon address is replaced by 127.0.0.1:1 (nothing listens
+// there, connections are refused at once), so that the daemon-dependent part of
+// createClocks (pather, DRKey fetcher, SPAO flags) runs without any daemon
+// being contacted; clock objects are only constructed, no measurement is made,
+// no device is opened.
 
 import (
 	"fmt"
 	"log/slog"
 	"os"
 	"reflect"
+	"strings"
 
 	"example.com/scion-time/core/client"
+	"example.com/scion-time/net/ntske"
 )
 
 func verifClockInfo(c client.ReferenceClock) (kind, id string) {
@@ -41,23 +61,78 @@ func verifClockInfo(c client.ReferenceClock) (kind, id string) {
 	return kind, "?"
 }
 
+func verifToken(s string) string {
+	if s == "" {
+		return "-"
+	}
+	return strings.ReplaceAll(s, " ", "_")
+}
+
+func verifFetcher(f *ntske.Fetcher) string {
+	return fmt.Sprintf("ntske_port=%s ntske_server=%s ntske_quic=%t ntske_log=%t",
+		verifToken(f.Port), verifToken(f.TLSConfig.ServerName), f.QUIC.Enabled, f.Log != nil)
+}
+
+func verifFilter(f any) string {
+	if f == nil {
+		return "filter=- filterp=-"
+	}
+	return fmt.Sprintf("filter=%T filterp=%p", f, f)
+}
+
+func verifClients(role string, pos int, c client.ReferenceClock) {
+	switch t := c.(type) {
+	case *ntpReferenceClockIP:
+		n := t.ntpc
+		if n == nil {
+			fmt.Printf("verif-wiring-client %s %d 0 nil=true\n", role, pos)
+			return
+		}
+		fmt.Printf("verif-wiring-client %s %d 0 interleaved=%t dscp=%d auth=%t nts=%t %s drkey=false drkeyp=- pather=false patherp=- %s hist=%t log=%t\n",
+			role, pos, n.InterleavedMode, n.DSCP, n.Auth.Enabled, n.Auth.Enabled, verifFetcher(&n.Auth.NTSKEFetcher),
+			verifFilter(n.Filter), n.Histogram != nil, n.Log != nil)
+	case *ntpReferenceClockSCION:
+		for i, n := range t.ntpcs {
+			if n == nil {
+				fmt.Printf("verif-wiring-client %s %d %d nil=true\n", role, pos, i)
+				continue
+			}
+			drkeyp, patherp := "-", "-"
+			if n.Auth.DRKeyFetcher != nil {
+				drkeyp = fmt.Sprintf("%p", n.Auth.DRKeyFetcher)
+			}
+			if t.pather != nil {
+				patherp = fmt.Sprintf("%p", t.pather)
+			}
+			fmt.Printf("verif-wiring-client %s %d %d interleaved=%t dscp=%d auth=%t nts=%t %s drkey=%t drkeyp=%s pather=%t patherp=%s %s hist=%t log=%t\n",
+				role, pos, i, n.InterleavedMode, n.DSCP, n.Auth.Enabled, n.Auth.NTSEnabled, verifFetcher(&n.Auth.NTSKEFetcher),
+				n.Auth.DRKeyFetcher != nil, drkeyp, t.pather != nil, patherp,
+				verifFilter(n.Filter), n.Histogram != nil, n.Log != nil)
+		}
+	}
+}
+
 func init() {
 	file := os.Getenv("SCION_TIME_VERIF_WIRING")
 	if file == "" {
 		return
 	}
 	cfg := loadConfig(file)
-	cfg.SCIONDaemonAddr = ""
+	if cfg.SCIONDaemonAddr != "" {
+		cfg.SCIONDaemonAddr = "127.0.0.1:1"
+	}
 	localAddr := localAddress(cfg)
 	localAddr.Host.Port = 0
 	refClocks, peerClocks := createClocks(cfg, localAddr, slog.Default())
 	for i, c := range refClocks {
 		k, id := verifClockInfo(c)
 		fmt.Printf("verif-wiring ref %d %s %s\n", i, k, id)
+		verifClients("ref", i, c)
 	}
 	for i, c := range peerClocks {
 		k, id := verifClockInfo(c)
 		fmt.Printf("verif-wiring peer %d %s %s\n", i, k, id)
+		verifClients("peer", i, c)
 	}
 	fmt.Printf("verif-wiring-done %d %d\n", len(refClocks), len(peerClocks))
 	os.Exit(0)
